@@ -229,7 +229,7 @@ def read_trace(path):
 
 
 def seg_of(line):
-    m = re.search(r'"seg":(\d+)', line)
+    m = re.search(r'"seg":\s*(\d+)', line)
     return int(m.group(1)) if m else -1
 
 
@@ -328,6 +328,33 @@ def validate_trace(module, cfgs, trace_path, inv_props, max_rounds=6, timeout=60
     res["dropped"] = sorted(dropped)
     shutil.rmtree(wd, ignore_errors=True)
     return res
+
+
+def binding_selftest(module, cfgs, trace_path, corrupt, inv_props, timeout=600, extra_files=None, trace_name="trace.ndjson"):
+    """Demonstrates that the validator is bound to what was recorded: `corrupt(lines_of_one_segment)` returns
+    a corrupted copy (or None if this segment has nothing to corrupt); the corrupted segment must NOT validate
+    cleanly.  Returns dict(tried, detected, what).  Not detected => the machinery is broken (caller exits 2)."""
+    lines = read_trace(trace_path)
+    segs = []
+    for l in lines:
+        s = seg_of(l)
+        if not segs or segs[-1][0] != s:
+            segs.append((s, []))
+        segs[-1][1].append(l)
+    for s, sl in segs[:60]:
+        c = corrupt(list(sl))
+        if not c:
+            continue
+        what, cl = c
+        wd = scratch("verif-st-")
+        tp = os.path.join(wd, "st.ndjson")
+        write_lines(tp, cl)
+        tv = validate_trace(module, cfgs, tp, inv_props, max_rounds=2, timeout=timeout, extra_files=extra_files, trace_name=trace_name)
+        shutil.rmtree(wd, ignore_errors=True)
+        detected = bool(tv["findings"] or tv["deviations"])
+        return dict(tried=True, detected=detected, what=what,
+                    outcome=[f.get("name") for f in tv["findings"]] or (["deviation"] if tv["deviations"] else []) or tv["inconclusive"])
+    return dict(tried=False, detected=True, what="no segment offered anything to corrupt")
 
 
 # ----------------------------------------------------------------------------------------------
